@@ -35,6 +35,7 @@ def run(ctx):
     ctx.rule("R3.activation-protocol", "check_activated before poll_erased; wake: swap(1), parent woken only on 0->1, cloned under the lock, woken outside it; parent installed through an unconditional lock", floor=5)
     ctx.rule("R4.deque-order", "slot removals only via pop_front_if/pop_back_if(is_ready) or drain in Drop; completion by in-place replace; no reordering calls", floor=5)
     ctx.rule("R6.release-before-user-drop", "once a Pending slot has been moved out of the deque, its metadata reference is released before any user code (the future's Drop) can run and unwind past the release", floor=2)
+    ctx.rule("R7.own-parent-cell", "every FutureDequeCore is built with a parent-waker cell of its own (a fresh Arc::new(Mutex::new(..)) made in the constructor): a cell shared between deques routes a wake to whichever deque was polled last", floor=1)
     ctx.rule("R5.metadata-balance", "each destruction of a Pending slot reaches release_ref(meta) exactly once", floor=3)
 
     wm = {b.name: b for b in prog.bodies if b.key.startswith("future_deque::waker_meta::") and not b.is_closure}
@@ -316,6 +317,7 @@ def run(ctx):
                    f"user-code points between moving the slot out and release_ref: {bad or 'none'}")
     ctx.ob("R5.metadata-balance", "all-destruction-sites-covered", set(by) == allowed, "", f"functions releasing metadata: {sorted(short(k) for k in by)}")
     # Drop releases the metadata of EVERY remaining slot (loop or adaptor form, no positional cut)
+    own_parent_cell(ctx, prog)
     from ..analysis import element_ops
     dr = [b for b in prog.bodies if b.key == "<future_deque::future_deque_core::FutureDequeCore<T> as std::ops::Drop>::drop"]
     if dr:
@@ -347,3 +349,27 @@ def _is_readiness_predicate(prog, cb):
     # the value returned is that boolean (through the inlined return)
     r = Slice(ib).run({"k": "copy", "place": {"l": 0, "p": []}})
     return 2 in r["args"] or any(2 in Slice(ib).run(ib.blocks[g["bb"]].term["discr"])["args"] for tb in trues for g in switch_guards(ib, tb) if g["src"].get("kind") == "discr")
+
+
+def own_parent_cell(ctx, prog):
+    n = 0
+    for b in prog.bodies:
+        if "::tests" in b.key or b.crate != "future_deque":
+            continue
+        for blk in b.blocks:
+            for st in blk.stmts:
+                if st["k"] == "assign" and st["rv"]["k"] == "aggr" and str(st["rv"].get("adt", "")).endswith("future_deque_core::FutureDequeCore"):
+                    names = st["rv"].get("fields") or []
+                    if "shared_parent" not in names:
+                        continue
+                    n += 1
+                    ctx.fn(b)
+                    sl = Slice(b).run(st["rv"]["ops"][names.index("shared_parent")])
+                    fresh = any(k.endswith("Arc::new") for k, _b, _t in sl["calls"])
+                    # `Waker::noop().clone()` as the initial content is fine; what must not be cloned/borrowed is the CELL (the Arc)
+                    shared = bool(sl["args"]) or bool(sl["statics"]) or any(
+                        (k.split("::")[-1] in ("with", "get", "get_or_init", "with_borrow")) or (k.split("::")[-1] == "clone" and "Arc" in k) for k, _b, _t in sl["calls"])
+                    ctx.ob("R7.own-parent-cell", short(b.key), fresh and not shared, b.loc(st["span"]),
+                           f"shared_parent built by Arc::new here: {fresh}; taken from a parameter / static / clone: {shared}")
+    if n == 0:
+        ctx.missing("R7.own-parent-cell", "construction of FutureDequeCore")
